@@ -609,6 +609,9 @@ func (c *CCtx) call(n Call) CVal {
 		srt := map[string]string{"bytes": "Bytes", "oidv": "OidV"}[n.Fun]
 		es := map[string]string{"bytes": "(_ BitVec 8)", "oidv": "Int"}[n.Fun]
 		return CVal{T: fmt.Sprintf("(%s (select %s (base %s)) (off %s) (len %s))", fn, c.heap(c.e.sorts.HeapSlice(es)), a.T, a.T, a.T), Sort: srt}
+	case "bsub": // bsub(x, lo, hi): the bytes x[lo:hi] of a byte slice
+		a, lo, hi := arg(0), arg(1), arg(2)
+		return CVal{T: fmt.Sprintf("(bytesv (select %s (base %s)) (+ (off %s) %s) (- %s %s))", c.heap(c.e.sorts.HeapSlice("(_ BitVec 8)")), a.T, a.T, lo.T, hi.T, lo.T), Sort: "Bytes"}
 	case "old":
 		sub := *c
 		sub.old = true
